@@ -107,6 +107,10 @@ class Streams(Harness):
                 p = [R(x) for x in i['p'][a][:have]]
                 for lb in self.cfg['lbs']:
                     tag = 't%d:%s:lb%d' % (t, a[-1], lb)
+                    undef = [n for n in ('mom', 'sma', 'vol') if L.is_undefined(step[a][n][lb])]
+                    if undef:
+                        obl.append((tag + ':signal_value_is_defined', L.true))
+                        continue
                     # momentum: last/first - 1 over the most recent lb+1 prices (shorter while warming up; 0 with one price)
                     k = min(lb, have - 1)
                     mom_def = (p[-1] / p[-1 - k] - 1) if k >= 1 else 0
